@@ -1357,6 +1357,49 @@ def _already_decorated_with_invariants(func: CallableT) -> bool:
     return already_decorated
 
 
+def _is_inherited_copy(value: Any) -> bool:
+    """Check whether ``value`` is a wrapper which a class holds in place of a member inherited from its bases."""
+    if isinstance(value, property):
+        return any(
+            getattr(accessor, "__is_inherited_copy__", False)
+            for accessor in (value.fget, value.fset, value.fdel)
+            if accessor is not None
+        )
+
+    return bool(getattr(value, "__is_inherited_copy__", False))
+
+
+def _is_copy_of(copy: Any, original: Any) -> bool:
+    """Check whether ``copy`` is ``original`` or wraps it (accessor-wise for the properties)."""
+    if isinstance(copy, property) and isinstance(original, property):
+        return all(
+            _is_copy_of(copy=accessor, original=original_accessor)
+            for accessor, original_accessor in (
+                (copy.fget, original.fget),
+                (copy.fset, original.fset),
+                (copy.fdel, original.fdel),
+            )
+        )
+
+    return copy is original or getattr(copy, "__wrapped__", None) is original
+
+
+def _resolve_without_copies(cls: type, name: str) -> Any:
+    """
+    Resolve the member ``name`` of ``cls`` the way Python would if no class held copies of inherited members.
+
+    A class with invariants holds wrapped copies of the members which it inherits from the bases without invariants.
+    In a common sub-class, such a copy must not hide the member of a sibling class which overrides it.
+    """
+    for klass in cls.__mro__:
+        if name in klass.__dict__:
+            value = klass.__dict__[name]
+            if not _is_inherited_copy(value):
+                return value
+
+    return None
+
+
 def add_invariant_checks(cls: ClassT) -> None:
     """Decorate each of the class functions with invariant checks if not already decorated."""
     # Candidates for the decoration as list of (name, dir() value)
@@ -1395,8 +1438,21 @@ def add_invariant_checks(cls: ClassT) -> None:
     # regarding the ``last_invariant``. Note that the functions which are already decorated
     # will not be re-decorated, so that this loop runs in O( dir(cls) * len(invariants) ),
     # but with a negligible constant.
+    # Names of the members for which a copy held by a base hides the definition which Python would have found
+    unshadowed = set()  # type: Set[str]
+
     for name in dir(cls):
         value = getattr(cls, name)
+
+        if name not in cls.__dict__ and _is_inherited_copy(value):
+            # A base holds a wrapped copy of a member which it inherits itself. If a sibling class, which comes later
+            # in the method resolution order, overrides that member, the copy must not hide the override.
+            native = _resolve_without_copies(cls=cls, name=name)
+            if (
+                inspect.isfunction(native) or isinstance(native, property)
+            ) and not _is_copy_of(copy=value, original=native):
+                value = native
+                unshadowed.add(name)
 
         # __new__ is a special class method (though not marked properly with @classmethod!).
         # We need to ignore __repr__ to prevent endless loops when generating error messages.
@@ -1473,7 +1529,10 @@ def add_invariant_checks(cls: ClassT) -> None:
 
     for name, func in names_funcs:
         wrapper = _decorate_with_invariants(func=func, is_init=False)
-        if wrapper is not func:
+        if wrapper is not func or name in unshadowed:
+            if wrapper is not func and name not in cls.__dict__:
+                setattr(wrapper, "__is_inherited_copy__", True)
+
             setattr(cls, name, wrapper)
 
     for name, prop in names_properties:
@@ -1494,7 +1553,19 @@ def add_invariant_checks(cls: ClassT) -> None:
         )
 
         if fget is prop.fget and fset is prop.fset and fdel is prop.fdel:
+            if name in unshadowed:
+                setattr(cls, name, prop)
+
             continue
+
+        if name not in cls.__dict__:
+            for accessor, original in (
+                (fget, prop.fget),
+                (fset, prop.fset),
+                (fdel, prop.fdel),
+            ):
+                if accessor is not None and accessor is not original:
+                    setattr(accessor, "__is_inherited_copy__", True)
 
         new_prop = property(fget=fget, fset=fset, fdel=fdel, doc=prop.__doc__)
         setattr(cls, name, new_prop)
